@@ -95,6 +95,9 @@ def _endings():
     add('usage_missing_file_argument', 'usage', 'USAGE')
     add('usage_nonexistent_file', 'usage', 'USAGE')
     add('usage_nonexistent_suite', 'usage', 'USAGE')
+    add('usage_superfluous_argument', 'usage', 'USAGE')
+    add('usage_option_without_its_argument', 'usage', 'USAGE')
+    add('usage_option_after_the_file', 'usage', 'USAGE')
     return E
 
 
@@ -366,6 +369,12 @@ def execute(plan, scratch):
         argv = mode_args + ['no-such.case']
     elif eid == 'usage_nonexistent_suite':
         argv = mode_args + ['--suite', 'no-such.suite', 't.case']
+    elif eid == 'usage_superfluous_argument':
+        argv = mode_args + ['t.case', 'one-too-many']
+    elif eid == 'usage_option_without_its_argument':
+        argv = mode_args + ['t.case', ['--suite', '--actor', '--preprocessor'][int(plan['run_seed'][:2], 16) % 3]]
+    elif eid == 'usage_option_after_the_file':
+        argv = mode_args + ['t.case', '--no-such-option']
     else:
         argv = mode_args + plan['argv_extra'] + ['t.case']
     sim = kernel.Sim(plan, w)
